@@ -57,6 +57,21 @@ def norm_fact(op, a, c):
     return (op, a, c)
 
 
+_depth = [0]
+
+
+def ref_root(b, op):
+    """Root of the value behind a reference operand (`&x` temporaries): the place that is borrowed."""
+    l = operand_local(op) if isinstance(op, dict) and op.get("k") != "const" else None
+    if l is not None and not op["place"]["p"]:
+        ds = [d for d in b.defs().get(l, ()) if d["kind"] != "param"]
+        if len(ds) == 1 and ds[0]["kind"] == "assign" and ds[0]["rv"]["k"] == "ref":
+            return root(b, ds[0]["rv"]["place"])
+        if len(ds) == 1 and ds[0]["kind"] == "assign" and ds[0]["rv"]["k"] == "use":
+            return ref_root(b, ds[0]["rv"]["op"])
+    return root(b, op)
+
+
 def edge_facts(b, bb):
     """Comparison facts that hold at bb because of dominating switch edges."""
     out = set()
@@ -73,8 +88,17 @@ def edge_facts(b, bb):
                 if t.get("otherwise") is not None and b.edge_dominates((sb, t["otherwise"]), bb) and t["otherwise"] not in [tb for v, tb in t["targets"]]:
                     for v, tb in t["targets"]:
                         out.add(norm_fact("Ne", r0, ("c", str(v))))
-            continue
-        if src[0] != "bin" or src[1]["op"] not in NEG:
+            elif l is not None and not t["op"]["place"]["p"] and b.locals[l]["ty"] == "bool" and not src:
+                # a flag with several definitions (`a > b && c > d` lowered to control flow)
+                tf0 = true_false_edges(b, sb, t)
+                if tf0 and _depth[0] < 3 and b.edge_dominates(tf0[0], bb):
+                    _depth[0] += 1
+                    try:
+                        fs = true_facts(b, t["op"], sb)
+                    finally:
+                        _depth[0] -= 1
+                    if fs != ALL:
+                        out |= fs
             continue
         tf = true_false_edges(b, sb, t)
         if not tf:
@@ -82,7 +106,22 @@ def edge_facts(b, bb):
         te, fe = tf
         if src[2]:
             te, fe = fe, te
-        op, a, c = src[1]["op"], root(b, src[1]["a"]), root(b, src[1]["b"])
+        if src[0] == "call" and src[1].matches(r"std::cmp::PartialOrd::(lt|le|gt|ge)", r"std::cmp::PartialEq::(eq|ne)") and len(src[1].args) == 2:
+            op = K.meth(src[1].path).capitalize()
+            a, c = ref_root(b, src[1].args[0]), ref_root(b, src[1].args[1])
+        elif src[0] == "bin" and src[1]["op"] in NEG:
+            op, a, c = src[1]["op"], root(b, src[1]["a"]), root(b, src[1]["b"])
+        else:
+            # a named flag: `let ok = a > b && c > d; if !ok { return }` — on its true edge everything the flag implies holds
+            if _depth[0] < 3 and b.edge_dominates(te, bb):
+                _depth[0] += 1
+                try:
+                    fs = true_facts(b, t["op"], sb)
+                finally:
+                    _depth[0] -= 1
+                if fs != ALL:
+                    out |= fs
+            continue
         if b.edge_dominates(te, bb):
             f = norm_fact(op, a, c)
             if f:
@@ -112,7 +151,10 @@ def true_facts(b, op, at, depth=0):
             return set()
         if d.get("bb", -1) >= 0 and not b.def_reaches(d, at):
             continue
-        if d["kind"] != "assign":
+        if d["kind"] == "call" and d["call"].matches(r"std::cmp::PartialOrd::(lt|le|gt|ge)", r"std::cmp::PartialEq::(eq|ne)") and len(d["call"].args) == 2:
+            f = norm_fact(K.meth(d["call"].path).capitalize(), ref_root(b, d["call"].args[0]), ref_root(b, d["call"].args[1]))
+            fs = {f} if f else set()
+        elif d["kind"] != "assign":
             fs = set()
         else:
             rv = d["rv"]
@@ -356,48 +398,58 @@ def run(ctx, crate):
     rule = "R-BAR-DISPLAY-ORDER"
     d = K.find_one(ctx, crate, rule, r"<style::BarDisplay<'_> as std::fmt::Display>::fmt")
     if d:
+        def from_field(sl, host, name, adt):
+            """the slice reads field `name` of `adt` — directly, or through a closure capture named after it"""
+            return sl.has_field(name, adt) or (host.kind == "Closure" and any(a[0] == "field" and a[1] == "closure" and str(a[2]).endswith("__" + name) for a in sl.atoms))
         ws = d.calls(r"std::fmt::Formatter::<'a>::write_str", r"std::fmt::Write::write_str")
+        reps = K.repeated_writes(crate, d)
         part_ws = [c for c in ws if d.slice_args(c, [1]).has_field("cur", BD)]
-        fill_ws = [c for c in ws if c not in part_ws]
+        # the filled segment: a counted repetition (loop / closure over a range), or one write of str::repeat(..)
+        fills = [r for r in reps if r["call"] not in part_ws]
+        repeat_ws = [c for c in ws if c not in part_ws and not d.in_loop(c.bb) and [x for x in d.slice_args(c, [1]).calls if x.matches(r"(alloc|std|core)::str::<impl str>::repeat")]]
         rest_calls = [c for c in d.calls() if c.args and d.slice_args(c, [0], through_calls=False).has_field("rest", BD) and K.meth(c.generic) == "fmt"]
-        ctx.check(len(fill_ws) == 1 and len(part_ws) == 1 and len(rest_calls) == 1, rule, "three-segments", d.name, K.fn_loc(d),
-                  "one write for the filled segment, one for the partial cell, one delegation to the background",
-                  "BarDisplay::fmt no longer has the three segments (filled writes %d, partial writes %d, rest %d)" % (len(fill_ws), len(part_ws), len(rest_calls)), cfg)
-        if len(fill_ws) == 1 and len(part_ws) == 1 and len(rest_calls) == 1:
-            lw, ow, rc = fill_ws[0], part_ws[0], rest_calls[0]
-            isl = d.slice_args(lw, [1])
-            if d.in_loop(lw.bb):
-                # loop bound = self.filled, starting at 0
-                rng = [(i_, j_, s_) for i_, j_, s_ in d.assigns() if s_["rv"]["k"] == "agg" and "Range" in str(s_["rv"].get("adt", ""))]
-                okb = any(len(s_["rv"]["ops"]) == 2 and str(s_["rv"].get("adt", "")).endswith("::Range") and const_val(s_["rv"]["ops"][0]) == 0
-                          and d.slice(s_["rv"]["ops"][1], at=i_).has_field("filled", BD) and not [a for a in d.slice(s_["rv"]["ops"][1], at=i_).atoms if a[0] == "binop"] for i_, j_, s_ in rng)
+        n_fill = len(fills) + len(repeat_ws)
+        stray = [c for c in ws if c not in part_ws and c not in repeat_ws and not d.in_loop(c.bb)]
+        ctx.check(n_fill == 1 and len(part_ws) == 1 and len(rest_calls) == 1 and not stray, rule, "three-segments", d.name, K.fn_loc(d),
+                  "one repeated write for the filled segment, one write for the partial cell, one delegation to the background",
+                  "BarDisplay::fmt no longer has the three segments (filled writes %d, partial writes %d, rest %d, other writes %d)" % (n_fill, len(part_ws), len(rest_calls), len(stray)), cfg)
+        if n_fill == 1 and len(part_ws) == 1 and len(rest_calls) == 1:
+            ow, rc = part_ws[0], rest_calls[0]
+            if fills:
+                r = fills[0]
+                site, host, wcall = r["site"], r["host"], r["call"]
+                bsl = d.slice(r["bound"], at=r["range_bb"]) if r["bound"] is not None else None
+                okb = bsl is not None and const_val(r["start"]) == 0 and bsl.has_field("filled", BD) and not [a for a in bsl.atoms if a[0] == "binop"]
             else:
-                reps = [c for c in isl.calls if c.matches(r"(alloc|std|core)::str::<impl str>::repeat")]
-                okb = len(reps) == 1 and d.slice_args(reps[0], [1]).has_field("filled", BD) and not [a for a in d.slice_args(reps[0], [1]).atoms if a[0] == "binop"]
-            ctx.check(okb, rule, "filled-times", d.name, lw.loc(), "the filled character is written `filled` times",
+                wcall, host, site = repeat_ws[0], d, repeat_ws[0].bb
+                rp = [x for x in d.slice_args(wcall, [1]).calls if x.matches(r"(alloc|std|core)::str::<impl str>::repeat")]
+                okb = len(rp) == 1 and d.slice_args(rp[0], [1]).has_field("filled", BD) and not [a for a in d.slice_args(rp[0], [1]).atoms if a[0] == "binop"]
+            ctx.check(okb, rule, "filled-times", d.name, wcall.loc(), "the filled character is written `filled` times",
                       "the filled segment is not repeated exactly `filled` times", cfg)
-            ctx.check(0 in [c for c in isl.consts() if isinstance(c, int) and not isinstance(c, bool)] and isl.has_field("chars", BD), rule, "filled-char-is-first", d.name, lw.loc(),
+            isl = host.slice_args(wcall, [1])
+            ctx.check(0 in [c for c in isl.consts() if isinstance(c, int) and not isinstance(c, bool)] and from_field(isl, host, "chars", BD), rule, "filled-char-is-first", d.name, wcall.loc(),
                       "the filled segment uses chars[0]", "the filled segment does not use the first configured character", cfg)
             osl = d.slice_args(ow, [1])
             ctx.check(not d.in_loop(ow.bb) and osl.has_field("chars", BD) and K.in_variant_region(d, crate, ow.bb, "std::option::Option", {"Some"}), rule, "partial-from-cur", d.name, ow.loc(),
                       "the partial cell is chars[cur], written once and only when cur is Some", "the partial cell is not chars[cur] written once under Some(cur)", cfg)
-            ok_order = (ow.bb not in d.reach_after(rc.bb)) and (lw.bb not in d.reach_after(ow.bb)) and (lw.bb not in d.reach_after(rc.bb))
+            ok_order = (ow.bb not in d.reach_after(rc.bb)) and (site not in d.reach_after(ow.bb)) and (site not in d.reach_after(rc.bb))
             ctx.check(ok_order, rule, "filled-partial-background", d.name, K.fn_loc(d), "segments are written in the order filled, partial, background",
                       "the segments of the bar are written in a different order", cfg)
     r = K.find_one(ctx, crate, rule, r"<style::RepeatedStringDisplay<'_> as std::fmt::Display>::fmt")
     if r:
         ws = r.calls(r"std::fmt::Formatter::<'a>::write_str", r"std::fmt::Write::write_str")
+        reps = K.repeated_writes(crate, r)
         ok = False
-        if len(ws) == 1:
-            w0 = ws[0]
-            sl0 = r.slice_args(w0, [1])
-            if r.in_loop(w0.bb):
-                rng = [(i_, j_, s_) for i_, j_, s_ in r.assigns() if s_["rv"]["k"] == "agg" and str(s_["rv"].get("adt", "")).endswith("::Range")]
-                ok = any(len(s_["rv"]["ops"]) == 2 and const_val(s_["rv"]["ops"][0]) == 0 and r.slice(s_["rv"]["ops"][1], at=i_).has_field("num", RSD)
-                         and not [a for a in r.slice(s_["rv"]["ops"][1], at=i_).atoms if a[0] == "binop"] for i_, j_, s_ in rng) and sl0.has_field("str", RSD)
-            else:
-                reps = [c for c in sl0.calls if c.matches(r"(alloc|std|core)::str::<impl str>::repeat")]
-                ok = len(reps) == 1 and r.slice_args(reps[0], [1]).has_field("num", RSD) and r.slice_args(reps[0], [0]).has_field("str", RSD)
+        if len(reps) == 1 and not [c for c in ws if not r.in_loop(c.bb)]:
+            x = reps[0]
+            bsl = r.slice(x["bound"], at=x["range_bb"]) if x["bound"] is not None else None
+            ssl = x["host"].slice_args(x["call"], [1])
+            from_str = ssl.has_field("str", RSD) or (x["host"].kind == "Closure" and any(a[0] == "field" and a[1] == "closure" and str(a[2]).endswith("__str") for a in ssl.atoms))
+            ok = bsl is not None and const_val(x["start"]) == 0 and bsl.has_field("num", RSD) and not [a for a in bsl.atoms if a[0] == "binop"] and from_str
+        elif not reps and len(ws) == 1:
+            sl0 = r.slice_args(ws[0], [1])
+            rp = [c for c in sl0.calls if c.matches(r"(alloc|std|core)::str::<impl str>::repeat")]
+            ok = len(rp) == 1 and r.slice_args(rp[0], [1]).has_field("num", RSD) and r.slice_args(rp[0], [0]).has_field("str", RSD)
         ctx.check(ok, rule, "background-num-times", r.name, K.fn_loc(r),
                   "the background string is written `num` times", "the background is not written exactly `num` times", cfg)
 
